@@ -72,7 +72,7 @@ def run(tier, seed, replay):
             for p, i, o in special:
                 cases.append({"id": len(cases), "src": p, "input": i, "other": o, "mode": r.choice(MODES), "vars": [r.choice(bigin + addin), r.choice(bigin + addin)] if "$v" in p else []})
             cor = evalfam.corpus_cases(work, vh)
-            for i in range(1200 if quick else 25000):
+            for i in range(1200 if quick else 150000):
                 src = jqgen.c05_program(r) if r.randrange(6) else r.choice(cor)["src"]
                 cases.append({"id": len(cases), "src": src, "input": r.choice(uni), "other": r.choice(uni), "mode": r.choice(MODES),
                               "vars": [r.choice(uni), r.choice(uni)] if "$v" in src else []})
